@@ -6,7 +6,7 @@ import os
 import struct
 
 from vf.core import SECTOR, Model, as_handle, rng_for
-from vf.diskcheck import compare_reads, continuation_reads, fault_retry_reads, crossing_count, gen_requests, mismatch_detail
+from vf.diskcheck import closed_handle_reads, compare_reads, continuation_reads, fault_retry_reads, crossing_count, gen_requests, mismatch_detail
 from vf.monitors import call
 from vf.writers import vmdk as w
 
@@ -416,6 +416,8 @@ def run(case: dict, ctx) -> dict:
     res["cnt"]["stream_cases_without_inflate"] = int(k == "stream" and not infl)
     if fh.mutations:
         res["viol"].append({"what": "handle mutated", "mech": "c09.handle", "detail": {"m": fh.mutations[:3]}})
+    if case["i"] % 4 == 0 and k != "bigcap":
+        closed_handle_reads(v, model, [fh], reqs, rng, res, MECH)
     res["cnt"][f"{k}_cases"] = 1
     res["cnt"]["exhaustive_request_cases"] = int(exhaustive)
     res["cnt"]["multi_grain_requests"] = crossing_count(reqs, gb)
